@@ -2,7 +2,7 @@
 import json, os
 from .context import Ctx
 from .report import Report
-from . import rules_effects, rules_own, rules_wipe, rules_tables
+from . import rules_effects, rules_own, rules_wipe, rules_tables, rules_bits
 
 TB_COMMON = ['clang-14 parsing and -O0 lowering of C11 (+ opt-14 mem2reg)', 'LLVM x86-64 data layout',
              'tools/irfacts.cc (IR -> JSON, no analysis)', 'psa/ir.py CFG, dominators, inclusion-based points-to']
@@ -58,9 +58,39 @@ def c17(ctx, rep):
             'separators, compared with the compiled sizeof(polyseed_str)')
 
 
+def c02(ctx, rep):
+    rules_bits.mul2_and_horner(ctx, rep)
+    return ('bit-provenance abstract interpretation derives gf_elem_mul2 and gf_poly_eval as GF(2)-linear maps for all inputs at once; '
+            'rank checks on the extracted matrices give single-error and transposition detection')
+
+
+def c03(ctx, rep):
+    rules_bits.packing(ctx, rep, want=('layout',))
+    rules_tables.registry_and_frozen(ctx, rep)
+    return ('bit-provenance abstract interpretation of the packer compared bit for bit with the published layout; separators and '
+            'composition flags from the constant tables')
+
+
+def c06(ctx, rep):
+    rules_bits.storage(ctx, rep)
+    return ('bit-provenance abstract interpretation of the storage codec: symbolic image of store; trace-partitioned load whose accept '
+            'partition is shown to be the inverse of store with every input bit either carried or pinned by a guard')
+
+
+def c01(ctx, rep):
+    rules_bits.packing(ctx, rep, want=('inverse',))
+    rules_tables.normalisation(ctx, rep)
+    rules_tables.search_preconditions(ctx, rep)
+    return 'conjunction of necessary conditions: packing bijection (bitflow), normalisation closure and search preconditions of the tables'
+
+
 REGISTRY = {
     'C15': dict(fn=c15, level='proof', tb=TB_COMMON + ['psa/paths.py path walker (phi resolution, constant folding)']),
     'C16': dict(fn=c16, level='proof', tb=TB_COMMON + ['psa/taint.py propagation summaries for injected functions']),
+    'C01': dict(fn=c01, level='other', tb=TB_COMMON + ['psa/bitflow.py transfer functions', 'Python unicodedata']),
+    'C02': dict(fn=c02, level='proof', tb=TB_COMMON + ['psa/bitflow.py transfer functions and affine merge', 'reference polynomial x^11+x^2+1']),
+    'C03': dict(fn=c03, level='proof', tb=TB_COMMON + ['psa/bitflow.py transfer functions', 'published layout transcribed in rules_bits.ref_layout']),
+    'C06': dict(fn=c06, level='proof', tb=TB_COMMON + ['psa/bitflow.py transfer functions, guard refinement by GF(2) elimination']),
     'C07': dict(fn=c07, level='other', tb=TB_COMMON + ['Python unicodedata', 'ref/languages.json + ref/words (transcribed from the pinned release)']),
     'C17': dict(fn=c17, level='proof', tb=TB_COMMON + ['Python unicodedata']),
     'C18': dict(fn=c18, level='other', tb=TB_COMMON),
@@ -75,7 +105,16 @@ def run(pid, tier, seed, replay=None):
     if replay:
         want = json.load(open(replay))
         print('replaying %s: rule %s at %s (%s)' % (replay, want['rule'], want['where'], want['construct']))
-    expl = ent['fn'](ctx, rep)
+    from .frontend import AnalysisBroken
+    try:
+        expl = ent['fn'](ctx, rep)
+    except AnalysisBroken as e:
+        if not rep.violations:
+            raise
+        # a rule already produced a violation with a named construct; a later rule could not be evaluated on this tree
+        rep.notes.append('ANALYSIS-BROKEN after the violation(s) were found: %s' % e)
+        print('note: a later rule could not be evaluated (%s); reporting the violations found before it' % e)
+        expl = 'partial run: see notes'
     from .frontend import source_digest
     dg, nfiles = source_digest()
     rep.info['source_sha256'] = dg; rep.info['source_files'] = nfiles
